@@ -12,7 +12,7 @@ COL_WIDTH = 6.25  # default portrait col_width (8.5 - 2.25)
 def make_table(heights, groups=None, *, ndata=2, fonts=None, sizes=None, subline=None, page_by_levels=0,
                new_page=False, pageby_row=None, pageby_header=None, header="explicit", footnote=None, source=None,
                nrow=10, placements=None, tall_cols=None, title=False, group_first=True, rel_widths=None, shared=None,
-               reverse_group_cols=False, size_pattern=None, null_cells=None, tall_header=0):
+               reverse_group_cols=False, size_pattern=None, null_cells=None, tall_header=0, tall_header_col=None, group_by_runs=None):
     """Deterministic builder.
     heights: list of target line counts per row.
     groups: list (one per page_by level) of per-row values; subline: per-row values or None.
@@ -36,7 +36,7 @@ def make_table(heights, groups=None, *, ndata=2, fonts=None, sizes=None, subline
             scols.append({"name": f"@N{len(names)}", "dtype": "str", "values": list(sl)})
             names.append(scols[-1]["name"])
     spanning = levels > 0 and (not new_page or (pageby_row or "column") != "column")
-    ndisp = ndata + (levels if (levels and not spanning) else 0)
+    ndisp = ndata + (levels if (levels and not spanning) else 0) + (1 if group_by_runs else 0)
     rel = list(rel_widths) if rel_widths else [1] * ndata
     tot_rel = sum(rel) + (ndisp - ndata)
     cws = [COL_WIDTH * r / tot_rel for r in rel]
@@ -69,8 +69,26 @@ def make_table(heights, groups=None, *, ndata=2, fonts=None, sizes=None, subline
         real_heights.append(hk)
     # the stored column order of the key columns need not follow the page_by order
     stored_g = list(reversed(gcols)) if reverse_group_cols else gcols
+    if group_by_runs:
+        # a displayed group_by column: one label per run (k lines in its own cell), blanked on repeats by the library
+        gw = COL_WIDTH / tot_rel
+        vals = []
+        for r, (length, k) in enumerate(group_by_runs):
+            label = metrics.filler(k, gw, 1, 9, prefix=f"g{r}") or f"g{r}"
+            vals += [label] * length
+        vals = (vals + [f"g{len(group_by_runs)}"] * n)[:n]
+        data_cols = [{"name": "@Ngb", "dtype": "str", "values": vals}] + data_cols
+        body["group_by"] = ["@Ngb"]
     cols = (stored_g + scols + data_cols) if group_first else (data_cols + stored_g + scols)
     order_names = [c["name"] for c in cols]
+    tagged = [c for c in data_cols if c["name"] != "@Ngb"]
+
+    def _di(c):
+        """index of a calibrated data column (None for key columns and the group_by column)"""
+        for j, d in enumerate(tagged):
+            if d is c:
+                return j
+        return None
     if levels:
         body["page_by"] = [c["name"] for c in gcols]
         if new_page:
@@ -82,18 +100,18 @@ def make_table(heights, groups=None, *, ndata=2, fonts=None, sizes=None, subline
     if pageby_header is not None:
         body["pageby_header"] = pageby_header
     if rel_widths:
-        body["col_rel_width"] = [rel[data_cols.index(c)] if c in data_cols else 1 for c in cols]
+        body["col_rel_width"] = [rel[_di(c)] if _di(c) is not None else 1 for c in cols]
     if size_pattern:
         # a short per-row pattern (matrix with fewer rows than the table, recycled down the rows)
         body["text_font_size"] = [[sz] * len(cols) for sz in size_pattern]
         if any(f != 1 for f in fonts):
-            body["text_font"] = [fonts[data_cols.index(c)] if c in data_cols else 1 for c in cols]
+            body["text_font"] = [fonts[_di(c)] if _di(c) is not None else 1 for c in cols]
     elif any(f != 1 for f in fonts) or any(s != 9 for s in sizes):
         # per-column vectors indexed by ORIGINAL column position
         fvec, svec = [], []
         for c in cols:
-            if c in data_cols:
-                j = data_cols.index(c)
+            if _di(c) is not None:
+                j = _di(c)
                 fvec.append(fonts[j])
                 svec.append(sizes[j])
             else:
@@ -109,7 +127,8 @@ def make_table(heights, groups=None, *, ndata=2, fonts=None, sizes=None, subline
         return tag
 
     if header == "explicit":
-        sec["headers"] = [{"text": [label(f"@H0.{c}", COL_WIDTH / ndisp) if c == tall_header % ndisp else f"@H0.{c}" for c in range(ndisp)]}]
+        hc = (tall_header if tall_header_col is None else tall_header_col) % ndisp
+        sec["headers"] = [{"text": [label(f"@H0.{c}", COL_WIDTH / ndisp) if c == hc else f"@H0.{c}" for c in range(ndisp)]}]
     elif header == "multi":
         sec["headers"] = [{"text": [label("@H0.0", COL_WIDTH)], "col_rel_width": [1]}, {"text": [f"@H1.{c}" for c in range(ndisp)]}]
     elif header == "none":
@@ -208,7 +227,7 @@ def lengthen_groups(draw, groups, p=4):
 def pag_recipe(draw, *, fonts=False, strategies=("plain", "page_by", "page_by_new", "subline"), max_rows=40, nrow_range=(2, 30),
                max_height=6, headers=("explicit", "default", "multi", "none"), levels_max=1, dividers=False,
                subline_with_page_by=False, pageby_rows=("column",), fn_src=True, placements=True, nulls=False,
-               widths=False, tall_headings=False, tall_headers=False):
+               widths=False, tall_headings=False, tall_headers=False, group_by=False):
     strat = draw(st.sampled_from(strategies))
     ndata = draw(st.integers(1, 3))
     levels = 0
@@ -262,6 +281,10 @@ def pag_recipe(draw, *, fonts=False, strategies=("plain", "page_by", "page_by_ne
     if tall_headings and subline and isinstance(subline[0], str) and draw(st.integers(0, 9)) < 5:
         # subline_by values long enough to wrap in the heading paragraph (text area 6.25 in on the default page)
         subline = draw(lengthen_groups([subline]))[0]
+    gb_runs = None
+    if group_by and strat == "plain" and n and draw(st.integers(0, 9)) < 6:
+        # a displayed group_by column whose labels take 1-3 lines; runs sized relative to the page capacity
+        gb_runs = [(r, draw(st.sampled_from([1, 2, 2, 3]))) for r in draw(runs_for(n, capacity))]
     new_page = strat == "page_by_new"
     pbr = draw(st.sampled_from(pageby_rows)) if new_page else None
     pl = tuple(draw(st.sampled_from(["first", "last", "all"])) for _ in range(3)) if (placements and draw(st.booleans())) else None
@@ -272,6 +295,7 @@ def pag_recipe(draw, *, fonts=False, strategies=("plain", "page_by", "page_by_ne
                      tall_cols=[draw(st.integers(0, 2)) for _ in range(n)], group_first=draw(st.booleans()),
                      rel_widths=rel, shared=shared, reverse_group_cols=(levels >= 2 and draw(st.integers(0, 9)) < 3),
                      size_pattern=size_pattern,
-                     tall_header=draw(st.integers(2, 3)) if (tall_headers and draw(st.integers(0, 9)) < 4) else 0)
+                     tall_header=draw(st.integers(2, 3)) if (tall_headers and draw(st.integers(0, 9)) < 4) else 0,
+                     tall_header_col=draw(st.integers(0, 3)), group_by_runs=gb_runs)
     rec["strategy"] = strat
     return rec
